@@ -41,10 +41,12 @@ TRUSTED = [
     "C18 errno protocol: getpriority(2)/ioprio_get(2)/sched_getaffinity(2) write errno only on failure and return -1 then; PyArg_ParseTuple between `errno = 0` and the call does not touch errno; in the live run the harness leaves ENOENT in the thread's errno before every call (os.stat of a missing path) and tells the model errno = 2 — that nothing in between resets it is not verified (seeded C18-1 shows it reaches the C code in plain mode)",
     "C18 /proc/stat: one cpuN line per ONLINE CPU (fs/proc/stat.c: for_each_online_cpu), so len(per_cpu_times()) can be smaller than the highest CPU id + 1; lxcfs-style virtualisation may show any smaller set; in the sim part the file is written by the harness, in the live part (live-hole) it is the real file minus one cpuN line behind a symlinked PROCFS_PATH",
     "C18 oneshot block: the status file is cached when the harness's warm-up first reads it (num_threads), so the model is told the mask at block entry",
+    "C18 Python object protocol: hash/equality of an IntEnum member or bool are those of the int (set membership in ionice_set), the `i` / PyLong_AsLong / PyLong_AsLongLong conversions accept every int subclass, an iterator is always truthy and has no len(); exercised with real objects in both parts, transcribed in Model §6",
+    "C18 vanished process: in the simulated part the Process object is made while /proc/<pid> exists, then the directory is removed and the recorders answer ESRCH; zombie: /proc/<pid>/stat shows state Z (simulated) / a real exited, unreaped child (live); a zombie's I/O context is gone, so its I/O priority is only read in the live part",
     "C18 /proc/<pid>/status: `Cpus_allowed_list` is the task's current mask printed as a range list (%*pbl); the harness renderer is checked against the live kernel on every run",
 ]
 MANIFEST = {
-    "level_text": "Machine-checked Lean 4 proofs over a four-layer model (simulated kernel, native layer with the translator's IOPRIO_CLASS_SHIFT, _pslinux.Process under wrap_exceptions, psutil.Process): ioprio pack/unpack round-trip for every class < 8 and data < 8192; one refinement theorem C18_refines (for EVERY kernel state, process and request, whenever the specification promises an outcome the model produces exactly that outcome and that kernel) with the named corollaries set-then-get for nice/ionice/cpu_affinity/rlimit on every valid value, other processes and other attributes unchanged, the listed invalid requests raise ValueError with an empty effect log, cpu_affinity([]) selects all eligible CPUs, duplicates and order are irrelevant, the get form is sorted and duplicate-free. The native getters take the C errno on entry as an input (translator facts: is errno cleared, which failure test): C18_nice_get_exact / C18_ionice_get_exact / C18_affinity_get_exact hold for every kernel value (nice -1 included) and every entry errno, C18_context_irrelevant carries every theorem over to calls made in any execution context (entry errno; status file cached by oneshot()), with proved counterexamples for the three broken errno protocols (C18_stale_errno_counterexample) and for the stale status file (C18_oneshot_stale_status_counterexample). C18_invalid_cpus_repaired: with the EINVAL->ValueError fall-through (a translator fact; landed) the only-unusable-CPU statement holds at full strength in every context. C18_refines_any_context: under that repair the refinement holds for every request in every context with no excluded region. rlimit: RLIM_INFINITY conversion round trip, soft > hard and resource out of range give ValueError with the kernel unchanged. With fix aebc260 landed (EINVAL -> ValueError after the diagnosis loop; obligation cfg_einval_is_valueError) the statements hold for the code as it is with no excluded region and no open finding: C18_invalid_cpus, C18_refines_code. The world is general about CPU numbering: possible ids 0..ncpu-1, any set of them online/in the cpuset (holes allowed), and the number of cpuN lines of /proc/stat (len(per_cpu_times())) is an independent parameter <= ncpu; C18_empty_selects_all_eligible and C18_refines_code hold in all such worlds for the range(1024) request (translator facts emptyAffinityRange / emptyAffinityUsesStatCount, consumed by cfg_good), C18_empty_count_counterexample shows that the range(len(per_cpu_times())) request (seeded C18-2) leaves out eligible CPUs when a CPU in the middle is offline and fails in a container with a virtualised /proc/stat, C18_valid_cpu_beyond_stat_lines that a valid CPU id >= the number of lines is accepted. Proved counterexamples for the superseded shapes of the code: the empty list resolved through the status file (C18_empty_needs_full_mask), the only-ineligible CPU list answered with OSError before the fix (C18_invalid_cpus_counterexample(X)). Tied to the code by translator facts (shift and macro shapes from C, level bounds, class set, enum members, pair length, PID-0 refusal, front-end rules) feeding the proof obligation cfg_good, by an exhaustive differential run against a simulated kernel over a fake procfs, and by a live run on spawned child processes through the freshly built extension; every call of the correspondence is made in a call mode drawn at random (plain, fresh oneshot, warm oneshot, as_dict, process_iter object, process_iter(attrs).info, second call, whole history inside one warm oneshot block) and the modes are enumerated completely on a small sub-domain.",
+    "level_text": "Machine-checked Lean 4 proofs over a four-layer model (simulated kernel, native layer with the translator's IOPRIO_CLASS_SHIFT, _pslinux.Process under wrap_exceptions, psutil.Process): ioprio pack/unpack round-trip for every class < 8 and data < 8192; one refinement theorem C18_refines (for EVERY kernel state, process and request, whenever the specification promises an outcome the model produces exactly that outcome and that kernel) with the named corollaries set-then-get for nice/ionice/cpu_affinity/rlimit on every valid value, other processes and other attributes unchanged, the listed invalid requests raise ValueError with an empty effect log, cpu_affinity([]) selects all eligible CPUs, duplicates and order are irrelevant, the get form is sorted and duplicate-free. The native getters take the C errno on entry as an input (translator facts: is errno cleared, which failure test): C18_nice_get_exact / C18_ionice_get_exact / C18_affinity_get_exact hold for every kernel value (nice -1 included) and every entry errno, C18_context_irrelevant carries every theorem over to calls made in any execution context (entry errno; status file cached by oneshot()), with proved counterexamples for the three broken errno protocols (C18_stale_errno_counterexample) and for the stale status file (C18_oneshot_stale_status_counterexample). C18_invalid_cpus_repaired: with the EINVAL->ValueError fall-through (a translator fact; landed) the only-unusable-CPU statement holds at full strength in every context. C18_refines_any_context: under that repair the refinement holds for every request in every context with no excluded region. rlimit: RLIM_INFINITY conversion round trip, soft > hard and resource out of range give ValueError with the kernel unchanged. With fix aebc260 landed (EINVAL -> ValueError after the diagnosis loop; obligation cfg_einval_is_valueError) the statements hold for the code as it is with no excluded region and no open finding: C18_invalid_cpus, C18_refines_code. The world is general about CPU numbering: possible ids 0..ncpu-1, any set of them online/in the cpuset (holes allowed), and the number of cpuN lines of /proc/stat (len(per_cpu_times())) is an independent parameter <= ncpu; C18_empty_selects_all_eligible and C18_refines_code hold in all such worlds for the range(1024) request (translator facts emptyAffinityRange / emptyAffinityUsesStatCount, consumed by cfg_good), C18_empty_count_counterexample shows that the range(len(per_cpu_times())) request (seeded C18-2) leaves out eligible CPUs when a CPU in the middle is offline and fails in a container with a virtualised /proc/stat, C18_valid_cpu_beyond_stat_lines that a valid CPU id >= the number of lines is accepted. Proved counterexamples for the superseded shapes of the code: the empty list resolved through the status file (C18_empty_needs_full_mask), the only-ineligible CPU list answered with OSError before the fix (C18_invalid_cpus_counterexample(X)). Tied to the code by translator facts (shift and macro shapes from C, level bounds, class set, enum members, pair length, PID-0 refusal, front-end rules) feeding the proof obligation cfg_good, by an exhaustive differential run against a simulated kernel over a fake procfs, and by a live run on spawned child processes through the freshly built extension; every call of the correspondence is made in a call mode drawn at random (plain, fresh oneshot, warm oneshot, as_dict, process_iter object, process_iter(attrs).info, second call, whole history inside one warm oneshot block) and the modes are enumerated completely on a small sub-domain. Round 2: the arguments are modelled as Python objects (stepPy, what the driver runs): int-like scalars as plain int / IntEnum member (the IOPRIO_CLASS_* constants) / bool, CPUs as list / tuple / set / range / iterator, limits as tuple / list / iterator, positional or keyword; C18_arg_form_irrelevant and C18_same_values_same_effect (forms of sized arguments never matter), C18_cpu_iterator, C18_refines_code_py (refinement for the code as it is with the arguments as written, every context), the characterisations C18_empty_iterator_is_refused (an exhausted iterator is truthy: ValueError, the mask is not reset - outside the statement, which names the empty list) and C18_limits_iterator_TypeError; C18_exception_no_effect: EVERY call that raises, in any form, configuration, kernel and context, leaves the kernel exactly as it was; C18_others_unchanged_py (frame in every context); a vanished process (C18_gone_process: ESRCH -> NoSuchProcess for the get forms, the gone-process half of the pre-set guard for every set form before its arguments are looked at). The correspondence runs the ionice table {None,0,1,2,3,4,-1} x {None,-1,0,1,4,7,8} x {int, IOPRIO_CLASS_* member} x {int, bool, enum} x {positional, keyword} completely, every call family in every argument form, a vanished and a zombie target (simulated and a real zombie child), and checks the exact result types (pionice namedtuple holding an IOPriority member and an int, list of int, tuple of two int).",
     "level_note": "Trusted: Lean kernel + {propext, Classical.choice, Quot.sound}; translator; correspondence harness; the simulated kernel's rules (validated live on this kernel only; ioprio class masking is that of Linux >= 6.x); a cpuset is given as cpuset-and-online (the simulated sched_setaffinity intersects with it); /proc/stat shows at most ncpu cpuN lines; privilege failures other than CAP_SYS_RESOURCE/nr_open are not modelled; PID reuse guard is C01's.",
     "technique": "Lean 4 refinement proof by case analysis over requests + bit-arithmetic lemmas + errno-protocol model of the native getters + translator-fed proof obligation + exhaustive differential correspondence (simulated kernel) in randomised call modes + live differential run with a poisoned errno",
     "design_ref": "DESIGN.md §5 C18",
@@ -52,7 +54,8 @@ MANIFEST = {
 ASSUMPTIONS = [
     "the process exists for the whole call and PID != 0 (Process(0) does not exist on Linux; rlimit's PID-0 refusal is modelled and checked)",
     "possible CPU ids are 0..ncpu-1 with ncpu <= 1024 (CPU_SETSIZE of the fixed cpu_set_t in proc.c); which of them are online / in the cpuset is arbitrary; /proc/stat has at most ncpu cpuN lines (one per online CPU, or fewer when virtualised)",
-    "requests are ints / lists of ints (other Python types raise TypeError before any native call and are not modelled)",
+    "arguments are int-like scalars (int, IntEnum member, bool) and list / tuple / set / range / iterator containers of ints; floats, strings, numpy arrays, a bare int where a sequence is expected are not modelled",
+    "the kernel implements prlimit(2) (Linux >= 2.6.36): the ENOSYS branch of _pslinux.Process.rlimit (zombie disambiguation) is never entered by the simulated kernel",
 ]
 
 T_PID, S_PID, SELF_PID = 4242, 4343, 4444
@@ -1169,7 +1172,7 @@ def extension_histories(rng):
     reqs = [R_nice(), R_nice(5), R_nice(2**31), R_ionice(), R_ionice(2, 3), R_ionice(2, 9), R_ionice(None, 3), R_aff(),
             R_aff([0]), R_aff([-1]), R_aff([]), R_aff([9]), R_rl(3), R_rl(3, (1, 2)), R_rl(3, (1,)), R_rl(16),
             R_rl(16, (1, 2)), F(R_aff([]), cpus_form="iterator"), F(R_rl(3, (1, 2)), limits_form="iterator"),
-            F(R_ionice(2, 1), ioclass_form="enum", kw=True)]
+            F(R_ionice(2, 1), ioclass_form="enum", kw=True), R_aff([2**63]), R_ionice(2**31, 0), R_rl(2**31, (1, 2))]
     for req in reqs:
         for mode in GONE_MODES:
             w = mk_world()
@@ -1391,6 +1394,40 @@ def run_sim_histories(ctx, impl, hists):
         impl.end_block()
         rows_all.append(rows)
     return rows_all, len(lines)
+
+
+def check_eligible_helper(ctx, res, impl):
+    """`_pslinux.Process._get_eligible_cpus()` against the model's `getEligibleCpus`, directly: since aebc260 the helper
+    only feeds the text of the ValueError of `cpu_affinity_set` (which CPUs to choose between), so no public result
+    depends on it any more; the model (and the theorems about the superseded configurations) still do."""
+    worlds = []
+    for n in range(1, 7):
+        for sub in itertools.combinations(range(6), n):
+            worlds.append(mk_world(ncpu=6, affinity=list(sub)))
+    for sub in ([0], [1], [0, 1], [1, 2], [0, 2], [2, 3], [0, 1, 2, 3], [1, 3]):
+        worlds.append(mk_world(ncpu=4, online=[0, 1, 2, 3], stat=[0, 1], affinity=sub))
+        worlds.append(mk_world(ncpu=8, online=[0, 1, 2, 3, 5, 6], affinity=sub))
+    lines = []
+    for w in worlds:
+        lines += [driver_world(w), {"op": "eligible", "pid": T_PID}]
+    outs = ctx.driver().batch(lines)
+    for i, w in enumerate(worlds):
+        m = outs[2 * i + 1]
+        if "ok" not in m:
+            raise RuntimeError("driver rejected the eligible query: %s" % m)
+        impl.begin(w)
+        try:
+            got = impl.ps.Process(T_PID)._proc._get_eligible_cpus()
+            got = [int(x) for x in got] if type(got) is list else {"unexpected": repr(got)}
+        except Exception as e:  # noqa: BLE001
+            got = {"exc": type(e).__name__}
+        res.count("family:eligible-helper")
+        res.case(("eligible-helper", w["procs"][0]["affinity"], stat_ids(w)), nontrivial=True)
+        if got != m["ok"]:
+            res.disagree("model", {"world": w, "helper": "_get_eligible_cpus", "mode": "helper",
+                                   "status_line": cpulist(w["procs"][0]["affinity"])}, got, m["ok"],
+                         note="_get_eligible_cpus() differs from the model's getEligibleCpus")
+    return len(lines)
 
 
 def check_sim(ctx, res, impl, hists):
@@ -1882,6 +1919,7 @@ def correspond(ctx, res):
             w, o = gen_history(ctx.rng)
             hists.append(with_modes(ctx.rng, {"world": w, "ops": o, "mode": "sim", "tag": "random"}, p_block=0.25))
         total = check_sim(ctx, res, impl, hists)
+        total += check_eligible_helper(ctx, res, impl)
         res.exhaustive = ("%d enumerated histories: nice -26..26 and the C int borders; ioclass None,-1..9,2^18-1,2^18,2^31 "
                           "x value None,-2..10,2^31; every ioprio class 0..7 for the get form; all 64 subsets of 6 CPUs "
                           "x {plain, duplicated, +nonexistent, +-1, +-2, +1024} x 9 (ncpu, cpuset, current mask) "
@@ -1889,7 +1927,12 @@ def correspond(ctx, res):
                           "histories and the live run are samples. Call modes (plain, oneshot, warm oneshot, as_dict, "
                           "process_iter object, process_iter(attrs).info, second call; whole history inside one warm "
                           "oneshot block) are drawn per call for the enumerated inputs and enumerated completely on "
-                          "%d histories (24 requests x 2 states x 7 modes + block)" % (n_ex, n_modes))
+                          "%d histories (24 requests x 2 states x 7 modes + block). Round 2: %d histories enumerate the "
+                          "ionice table {None,0,1,2,3,4,-1} x {None,-1,0,1,4,7,8} x class form (int, IOPRIO_CLASS_* member) x "
+                          "value form (int, bool, enum) x (positional, keyword) x 2 states; nice/rlimit/cpu_affinity in every "
+                          "argument form (7 resource forms x 13 limit shapes x tuple/list/iterator x kw; 14 CPU lists x "
+                          "list/tuple/set/range/iterator x 3 worlds x kw); 23 requests on a vanished process x 4 modes; 15 requests "
+                          "on a zombie x 7 modes + block" % (n_ex, n_modes, n_ext))
         res.extra["driver_lines"] = total
     finally:
         impl.close()
@@ -1941,6 +1984,18 @@ def replay(ctx, rp, res):
         return any(x["kind"] == "spec" and not x.get("finding") for x in r2.disagreements)
     if "world" not in inp:
         return True
+    if inp.get("mode") == "helper":
+        impl = SimImpl(ctx)
+        try:
+            m = ctx.driver().batch([driver_world(inp["world"]), {"op": "eligible", "pid": T_PID}])[1]
+            impl.begin(inp["world"])
+            try:
+                got = [int(x) for x in impl.ps.Process(T_PID)._proc._get_eligible_cpus()]
+            except Exception as e:  # noqa: BLE001
+                got = {"exc": type(e).__name__}
+            return got != m.get("ok")
+        finally:
+            impl.close()
     return _violates(ctx, inp) is not None
 
 
